@@ -20,6 +20,7 @@ type pxProg struct {
 type pxSuite struct {
 	Configs    []*pxConfig
 	Inits      []*pxInit
+	InitsFor   func(p pxProg) []*pxInit // optional: per-program initial states (overrides Inits)
 	Programs   func(tier string, emit func(p pxProg))
 	Violates   func(class string) bool                                                              // which outcome classes violate this property
 	Nontrivial func(ref *refResult, p pxProg) bool                                                  // rule for distinct_nontrivial
@@ -86,7 +87,11 @@ func pxRunSuite(c *RunCtx, s *pxSuite) {
 		}
 		progs++
 		nontrivial := false
-		for _, in := range s.Inits {
+		inits := s.Inits
+		if s.InitsFor != nil {
+			inits = s.InitsFor(p)
+		}
+		for _, in := range inits {
 			ref := refRun(p.Text, in)
 			if !ref.WellFormed {
 				c.Sum.Outcomes["skipped-ill-formed"]++
